@@ -19,8 +19,8 @@ from props import c06
 
 def jobs_for(ctx):
     s = ctx.seed
-    clean = dict(steps=(2, 4), leads=(0,), tbs=(0, 1), clean=True)
-    acts = ("scalar", "indent", "filler", "swap", "add", "base", "wrap")
+    clean = dict(steps=(2, 4), leads=(0,), tbs=(0, 1), clean=True, seps=("sp", "tab"))
+    acts = ("scalar", "indent", "filler", "swap", "add", "base", "wrap", "crlf")
     jobs = []
     if not ctx.thorough:
         jobs.append(dict(tag="xw2", cfg=c06.gen_cfg(edits=2, acts=("wrap", "base"), focus=c06.ALL_FOCUS, **clean), workers=4))
@@ -36,10 +36,10 @@ def jobs_for(ctx):
         jobs.append(dict(tag="xadd", cfg=c06.gen_cfg(edits=4, acts=("add",), focus=c06.ALL_FOCUS, **clean), workers=2))
         jobs.append(dict(tag="xs1", cfg=c06.gen_cfg(edits=1, acts=("scalar",), focus=("expr", "alert", "annotations.v"), **clean)))
         for k in range(12):
-            jobs.append(dict(tag="wsim%d" % k, simulate=300, depth=10, seed=s * 100 + k,
+            jobs.append(dict(tag="wsim%d" % k, simulate=120, depth=10, seed=s * 100 + k,
                              cfg=c06.gen_cfg(ginds=(0, 2, 4), rsteps=(0, 2), edits=9, acts=acts, focus=c06.ALL_FOCUS, sim=True, **clean)))
         for k in range(4):
-            jobs.append(dict(tag="deep%d" % k, simulate=600, depth=7, seed=s * 100 + 20 + k,
+            jobs.append(dict(tag="deep%d" % k, simulate=250, depth=7, seed=s * 100 + 20 + k,
                              cfg=c06.gen_cfg(edits=6, acts=("wrap", "base"), focus=c06.ALL_FOCUS, sim=True, **clean)))
     return jobs
 
@@ -51,13 +51,19 @@ def sig_of(v):
 def run(ctx, cases_override=None):
     ctx.build_vh()
     if cases_override is None:
-        cases, gstats = c06.run_gen(ctx, jobs_for(ctx), par=6 if not ctx.thorough else 12)
+        cases, gstats = c06.run_gen(ctx, jobs_for(ctx), par=6 if not ctx.thorough else 8)
     else:
         cases, gstats = cases_override, []
     cases.sort(key=lambda c: json.dumps(c["lay"], sort_keys=True))
     for i, c in enumerate(cases):
         c["id"] = i + 1
     cpath = write_ndjson(ctx.path("c19_cases.ndjson"), cases)
+    nontriv = lambda c: bool(c["lay"]["wrap"]["levels"] or c["lay"]["wrap"]["docB"] or c["lay"]["wrap"]["docA"])
+    wr = [c for c in cases if nontriv(c)]
+    sample = dict(wr[len(wr) // 3] if wr else cases[0])
+    for c in cases:                     # the rendered text stays on disk only (memory)
+        c.pop("lines", None)
+        c.pop("base", None)
     tpath = ctx.path("c19_trace.ndjson")
     ctx.vh("exec-c19", cpath, tpath)
     j = c06.run_judge(ctx, "LayoutWrapTrace", tpath, "c19", slices=10 if not ctx.thorough else 14)
@@ -67,15 +73,15 @@ def run(ctx, cases_override=None):
         what = ("relaxed mode differs from strict mode on a strict-valid file (first difference: %s)" % v["diff"]) if v["kind"] == "modes" else \
                ("rules found in the wrapped document (%s) are not the rules of the unwrapped one displaced by the wrapper (first difference: %s)"
                 % (v["shape"], v["diff"]))
-        viols.append({"sig": sig_of(v), "what": what, "case": {"lay": c["lay"], "lines": c["lines"], "base": c["base"]}, "detail": v})
+        viols.append({"sig": sig_of(v), "what": what, "case": {"lay": c["lay"]}, "detail": v})
     # binding failures make the run unusable (exit 2) - unless real violations were found as well: those stand
     if j["UNEXP"] and not vlib.partition_violations(ctx.prop, viols)[1]:
         cid, u = j["UNEXP"][0]
         raise MachineryError("%d record(s) where the unwrapped document is not what the layout wrote (rendering bug or parser change): "
-                             "case %s %s\n%s" % (len(j["UNEXP"]), cid, json.dumps(u), "\n".join(cases[cid - 1]["base"])))
+                             "case %s %s\n%s" % (len(j["UNEXP"]), cid, json.dumps(u), json.dumps(cases[cid - 1]["lay"])[:3000]))
     if os.environ.get("C19_DUMP"):
-        write_ndjson(os.environ["C19_DUMP"], [dict(v["detail"], sig=v["sig"], lines=v["case"]["lines"]) for v in viols])
-    wrapped = [c for c in cases if c["lines"] != c["base"]]
+        write_ndjson(os.environ["C19_DUMP"], [dict(v["detail"], sig=v["sig"]) for v in viols])
+    wrapped = wr
     shapes = set()
     rules = 0
     for c in cases:
@@ -83,7 +89,6 @@ def run(ctx, cases_override=None):
         shapes.add((c["lay"]["base"], tuple((lv["seq"], lv["key"], lv["step"], lv["sibB"], lv["sibA"], lv["sl"]) for lv in w["levels"]),
                     w["embed"], w["docB"], w["docA"]))
         rules += len(c["lay"]["rules"])
-    sample = wrapped[len(wrapped) // 3] if wrapped else cases[0]
     cov = {
         "evaluations": 3 * len(cases),
         "distinct_nontrivial": len(wrapped),
@@ -100,6 +105,9 @@ def run(ctx, cases_override=None):
         "with_sibling_rule_list": sum(1 for c in cases if any(lv["sl"] for lv in c["lay"]["wrap"]["levels"])),
         "with_alias_rule": sum(1 for c in cases if any(r["alias"] for r in c["lay"]["rules"])),
         "with_group_header_keys": sum(1 for c in cases if c["lay"]["ghdr"]),
+        "with_thanos_key": sum(1 for c in cases if any(g["k"] == "prs" for g in c["lay"]["ghdr"])),
+        "with_merge_rule": sum(1 for c in cases if any(r["merge"] for r in c["lay"]["rules"])),
+        "with_crlf": sum(1 for c in cases if c["lay"]["crlf"]),
         "states": sum(g["states"] or 0 for g in gstats),
         "explanation": "exploration over a TLA+-generated layout/wrapper grammar with a TLA+-evaluated oracle; no system state machine is "
                        "model-checked. Part xw2 is exhaustive: every wrapper reachable by two wrapper edits around the base document "
